@@ -359,3 +359,20 @@ func RouteOf(route string) (pos int, typ string, slot int, part string, ok bool)
 // DeadClient returns an HTTP client whose transport fails every request (for
 // checks that must not touch the network at all).
 func DeadClient() *http.Client { return netsim.New().Client() }
+
+// warmOCSP lets the library check the sibling certificate against its own
+// genuine reply once.
+func warmOCSP(f *Family, pos int, sh Shape, kit *Kit, body []byte) {
+	net := netsim.New()
+	net.Handle(f.Host(pos, "o", 0), kit.OCSPHandler([]netsim.Reply{{Body: body, Class: "warm-up"}}))
+	shapes := make([]Shape, f.Len)
+	shapes[pos] = sh
+	chain := f.Chain(shapes)
+	core.Guard(func() {
+		pur := purpose.CodeSigning
+		if f.Purpose == "timestamping" {
+			pur = purpose.Timestamping
+		}
+		rocsp.CheckStatus(rocsp.Options{CertChain: chain, CertChainPurpose: pur, HTTPClient: net.Client()})
+	})
+}
